@@ -38,6 +38,21 @@ theorem seal_sites_fresh_nonce :
      c.idxOf "crypto.NewRandomNonce" < c.idxOf "newkey.user.Seal" ∧
      c.idxOf "newkey.user.Seal" < c.idxOf "s.be.Save" ∧ c.count "s.be.Save" = 1) := by decide
 
+/-- calls strictly between the first occurrences of `a` and `b` -/
+def between (c : List String) (a b : String) : List String :=
+  ((c.drop (c.idxOf a + 1)).take (c.idxOf b - c.idxOf a - 1))
+
+/-- between the draw of the nonce and its use nothing is called that could touch it: only the
+    allocation of the output buffer and the `append` that copies the nonce in front of it
+    (a `copy`, a second draw or any helper in between makes this obligation fail) -/
+theorem nonce_untouched_between_draw_and_seal :
+    between Restic.Gen.repo_saveAndEncrypt_calls "crypto.NewRandomNonce" "r.key.Seal" =
+      ["len", "crypto.CiphertextLength", "make", "append"] ∧
+    between Restic.Gen.repo_saveUnpacked_calls "crypto.NewRandomNonce" "r.key.Seal" = ["append"] ∧
+    between Restic.Gen.pack_Finalize_calls "crypto.NewRandomNonce" "p.k.Seal" = ["append"] ∧
+    between Restic.Gen.repo_AddKey_calls "crypto.NewRandomNonce" "newkey.user.Seal" =
+      ["len", "crypto.CiphertextLength", "make", "append"] := by decide
+
 /-- a nonce is 16 bytes of `crypto/rand`, nothing else -/
 theorem nonce_from_rand : Restic.Gen.crypto_NewRandomNonce_calls = ["make", "rand.Read", "panic"] := by decide
 
